@@ -24,6 +24,12 @@ ASSUMPTIONS = [
 MINIMUM = {'R15.1': 1, 'R15.2': 2, 'R15.3': 2, 'R15.4': 4}
 
 
+# rules of sibling properties that are necessary conditions of this one too
+# (evaluated by the sibling module on the same graphs, reported under this property)
+ALSO = {'C10': {'R10.4': 'entries are removed whole, re-runs complete'},
+ 'C11': {'R11.1': 'the payload delete works for every kind of payload, so the info is not '
+                  'removed without it'}}
+
 def classify(path):
     kinds = set()
     infos = set()
